@@ -73,6 +73,14 @@ Theorem C09_carried_state_is_reset :
 Proof. exact (conj carried_all_reset gen_policy_ok). Qed.
 Print Assumptions C09_carried_state_is_reset.
 
+(* there is no state besides the engine's and the RunnerState's: the packages of the engine write no package-level variable
+   outside init() (memo tables keyed by names, pools, counters ... would be shared by all engines, states and files of a
+   process); the cold-process reference runs compare every (rule set, file) with a process that ran everything in the
+   opposite order *)
+Theorem C09_no_package_level_state : gen_pkg_level_writes = [].
+Proof. exact no_package_level_state. Qed.
+Print Assumptions C09_no_package_level_state.
+
 (* what is carried goes where it belongs: the runner's field of each role is the RunnerState's field of that role (the
    matcher state of the rule loop and the one of the Contains() searches are not mixed up, the operand stack is the eval
    environment's) *)
